@@ -136,7 +136,10 @@ func (sc *scenario) apiOn(in *inst) string {
 	var cost [4][]string
 	txs := blk.Transactions()
 	for i, tx := range txs {
-		txS = append(txS, cls(blockchain.CheckTransactionSanity(tx)))
+		// the class of a per-transaction failure is compared only on lines where exactly one rule class is violated
+		// in the whole block (mode VC): with several defects in one transaction the order of the checks is btcd's
+		// business, not the property's
+		txS = append(txS, clsOrOk(sc.mode, blockchain.CheckTransactionSanity(tx)))
 		fin = append(fin, fmt.Sprint(b2i(blockchain.IsFinalizedTransaction(tx, height, cutoff))))
 		so = append(so, fmt.Sprint(blockchain.CountSigOps(tx)))
 
@@ -165,7 +168,9 @@ func (sc *scenario) apiOn(in *inst) string {
 				unavailable = true
 			}
 		}
-		if unavailable {
+		csvNow, csvTip := active(v.csvH, height), active(v.csvH, height-1)
+		if unavailable || csvNow != csvTip {
+			// at the activation height the exported helper looks at the tip's deployment state: not compared
 			sl = append(sl, "-")
 		} else if lock, err := chain.CalcSequenceLock(tx, view, false); err != nil {
 			sl = append(sl, cls(err))
@@ -173,16 +178,22 @@ func (sc *scenario) apiOn(in *inst) string {
 			sl = append(sl, fmt.Sprint(b2i(blockchain.SequenceLockActive(lock, height, mtp))))
 		}
 		if fee, err := blockchain.CheckTransactionInputs(tx, height, view, params); err != nil {
-			ins = append(ins, cls(err))
+			ins = append(ins, clsOrOk(sc.mode, err))
 		} else {
 			ins = append(ins, fmt.Sprintf("fee:%d", fee))
 		}
-		if n, err := blockchain.CountP2SHSigOps(tx, isCb, view); err != nil {
+		if unavailable || hasNull(tx.MsgTx()) && !isCb {
+			p2 = append(p2, "-") // how a stand-alone helper reports a missing input is not part of the property
+		} else if n, err := blockchain.CountP2SHSigOps(tx, isCb, view); err != nil {
 			p2 = append(p2, cls(err))
 		} else {
 			p2 = append(p2, fmt.Sprint(n))
 		}
 		for k := 0; k < 4; k++ {
+			if unavailable || hasNull(tx.MsgTx()) && !isCb {
+				cost[k] = append(cost[k], "-")
+				continue
+			}
 			n, err := blockchain.GetSigOpCost(tx, isCb, view, k&2 != 0, k&1 != 0)
 			if err != nil {
 				cost[k] = append(cost[k], cls(err))
